@@ -330,6 +330,29 @@ AddDependency(n, m) ==
   /\ act' = [name |-> "AddDependency", n |-> n, m |-> m]
   /\ UNCHANGED <<fbFailed, shape, kind, params, fsym, frozen, cache, snap>>
 
+(* Nexus.add_dependency(name = n, depends_on = (m1, m2)): all of them or none *)
+AddDependencyPair(n, m1, m2) ==
+  /\ Bounded("AddDependencyPair")
+  /\ n \in Live /\ m1 \in Live /\ m2 \in Live /\ m1 # m2 /\ kind[n] = "func"
+  /\ m1 = "n5" \/ m2 = "n5"                  \* one of the two is the spare parameter (keeps the branching small)
+  /\ LET bad(m) == m = n \/ m \in Ancestors(n) IN
+     IF bad(m1) \/ bad(m2)
+     THEN /\ "rejects" \notin Off
+          /\ obs' = [kind |-> "reject"]
+          /\ IF "partial_rollback" \in Faults /\ ~bad(m1)
+             THEN /\ children' = [children EXCEPT ![n] = Append(@, m1)]
+                  /\ parents' = [parents EXCEPT ![m1] = @ \cup {n}]
+             ELSE UNCHANGED <<children, parents>>
+          /\ stale' = MarkFrom({n}, stale)
+          /\ touched' = Touch({n}, children)
+     ELSE /\ obs' = [kind |-> "none"]
+          /\ children' = [children EXCEPT ![n] = @ \o <<m1, m2>>]
+          /\ parents' = [parents EXCEPT ![m1] = @ \cup {n}, ![m2] = @ \cup {n}]
+          /\ stale' = MarkFrom({n}, stale)
+          /\ touched' = Touch({n}, children')
+  /\ act' = [name |-> "AddDependencyPair", n |-> n, m1 |-> m1, m2 |-> m2]
+  /\ UNCHANGED <<fbFailed, shape, kind, params, fsym, frozen, cache, snap>>
+
 AddDependencyUnknown(n) ==                    \* unknown node name: ValueError, nothing changes
   /\ Bounded("AddDependencyUnknown") /\ "rejects" \notin Off
   /\ n \in Live
@@ -412,6 +435,7 @@ Next ==
   \/ \E n \in Nodes : Unfreeze(n)
   \/ \E n \in Nodes, g \in FSyms : SetFunc(n, g)
   \/ \E n, m \in Nodes : AddDependency(n, m)
+  \/ \E n, m1, m2 \in Nodes : AddDependencyPair(n, m1, m2)
   \/ \E n \in Nodes : AddDependencyUnknown(n)
   \/ \E n, c, m \in Nodes : ReplaceChild(n, c, m)
   \/ \E n, m \in Nodes : RemoveDependency(n, m)
